@@ -204,14 +204,7 @@ def check_order_triple(sa, sb, sc):
     return fails
 
 
-class FoldingConverter(Converter):
-    """A subclass whose prefix standardisation ignores case (the validation context must go through it)."""
-
-    def standardize_prefix(self, prefix, *, strict=False, passthrough=False):
-        for k, v in self.synonym_to_prefix.items():
-            if k.casefold() == prefix.casefold():
-                return v
-        return super().standardize_prefix(prefix, strict=strict, passthrough=passthrough)
+from ..impl import FoldingConverter  # noqa: E402
 
 
 def contexts():
